@@ -111,7 +111,7 @@ theorem starttls_checks_hostname :
 theorem connect_clears_flag :
     allTraces (get "XMPPTransport.Connect") (fun t =>
       t.head? == some (.call "set XMPPTransport.isSecure=false") && !t.contains (.call "set XMPPTransport.isSecure=true") &&
-      cnt (.call "net.DialTimeout") t == 1) = true := by decide +kernel
+      (t.filter (fun a => match a with | .call w => w.startsWith "net.DialTimeout" | _ => false)).length == 1) = true := by decide +kernel
 
 example : startTLSOk [.call "tls.Client", .call "Conn.Handshake", .call "set XMPPTransport.isSecure=true", .call "Conn.VerifyHostname",
     .call "return err"] = false := by decide +kernel
